@@ -179,8 +179,44 @@ pub fn pki() -> &'static Pki {
                 }
             }
         }
+        // twins (always the last two): same subject, issuer and serial number, different keys - what a relay presenting its own
+        // key under the identity of a server the client has met before looks like
+        for nm in ["twin-a", "twin-b"] {
+            let k = PKey::from_rsa(Rsa::generate(2048).unwrap()).unwrap();
+            let mut c = make_cert("rdp-server.twin", &k, None, false, 9);
+            // make_cert randomises the serial number: rebuild with a fixed one
+            {
+                let mut b = X509::builder().unwrap();
+                b.set_version(2).unwrap();
+                b.set_serial_number(&BigNum::from_u32(0x00C0FFEE).unwrap().to_asn1_integer().unwrap()).unwrap();
+                b.set_subject_name(c.subject_name()).unwrap();
+                b.set_issuer_name(c.issuer_name()).unwrap();
+                b.set_pubkey(&k).unwrap();
+                b.set_not_before(&Asn1Time::from_unix(1_600_000_000).unwrap()).unwrap();
+                b.set_not_after(&Asn1Time::days_from_now(3650).unwrap()).unwrap();
+                b.sign(&k, MessageDigest::sha256()).unwrap();
+                c = b.build();
+            }
+            ids.push(Identity { name: nm, spk: rsa_spk(&k), acceptor: acceptor(&c, &k), cert: c, key: k, trusted: false });
+        }
         Pki { ids }
     })
+}
+
+/// indices of the twin identities (same subject / issuer / serial, different keys)
+pub fn twins() -> (u8, u8) {
+    let n = pki().ids.len();
+    ((n - 2) as u8, (n - 1) as u8)
+}
+
+/// the certificate whose key + 1 a relay would present instead of `id`'s
+fn other_identity(id: &Identity) -> &'static Identity {
+    let ids = &pki().ids;
+    match id.name {
+        "twin-a" => &ids[ids.len() - 1],
+        "twin-b" => &ids[ids.len() - 2],
+        _ => &ids[if std::ptr::eq(id, &ids[1]) { 0 } else { 1 }],
+    }
 }
 
 /// raw-transport recorder around the client's end of the socket pair
@@ -587,6 +623,11 @@ fn credssp<T: Read + Write>(tls: &mut SslStream<T>, id: &Identity, n: &NlaCfg, r
     };
     match first {
         Some(k) if k == id.spk => nla.pubkey_ok = true,
+        // a relay does not look at the token, it forwards it: a client that bound its token to the OTHER certificate's key still
+        // gets the relayed answer (which it must refuse: the key of the live TLS session is a different one)
+        Some(k) if n.final_reply == FinalReply::OtherCert && k == other_identity(id).spk => {
+            nla.notes.push("pubKeyAuth of the client is bound to the other certificate's key; relayed all the same".into());
+        }
         Some(_) => {
             nla.verify_error = Some("pubKeyAuth unseals to something other than the certificate's public key".into());
             return false;
@@ -727,7 +768,7 @@ fn build_final(kind: &FinalReply, id: &Identity, keys: &crypto::SessionKeys, to_
         FinalReply::WrongDirection => wrap(&SealCtx::new(&keys.client_sign, &keys.client_seal).seal(&ntlm::increment_le(spk))),
         FinalReply::WrongSignKey => wrap(&SealCtx::new(&keys.client_sign, &keys.server_seal).seal(&ntlm::increment_le(spk))),
         FinalReply::OtherCert => {
-            let other = &pki().ids[if std::ptr::eq(id, &pki().ids[1]) { 0 } else { 1 }];
+            let other = other_identity(id);
             wrap(&seal(&ntlm::increment_le(&other.spk)))
         }
         FinalReply::Reflect => wrap(client_pka),
@@ -769,7 +810,7 @@ fn build_final(kind: &FinalReply, id: &Identity, keys: &crypto::SessionKeys, to_
             wrap(&t)
         }
         FinalReply::RelayedXor => {
-            let other = &pki().ids[if std::ptr::eq(id, &pki().ids[1]) { 0 } else { 1 }];
+            let other = other_identity(id);
             let mine = ntlm::increment_le(spk);
             let theirs = ntlm::increment_le(&other.spk);
             let mut t = seal(&mine);
